@@ -37,6 +37,8 @@ func runC05(c *Ctx) {
 	// no unchanged path is reported: the differ's verdict 'different' needs a
 	// difference between the two sides (shared with C02)
 	r02_13(c, "R05.12")
+	// completion is signalled by the end-of-data marker only
+	r05_13(c, "R05.13")
 }
 
 // R05.5: the bytes that are hashed are the bytes that are stored.
@@ -743,4 +745,87 @@ func r05_4(c *Ctx, rule string) {
 	default:
 		c.R.OK(rule, c.name(loop)+"/dir-to-nondir-records-prefix", c.pos(sf), "whenever the destination entry is a directory and the source entry is not, the prefix is recorded before the change is reported")
 	}
+}
+
+// R05.13: a pipe is closed only by the end-of-data marker. Closing the
+// wrapped writer signals completion with a nil error to the goroutine that
+// waits in asyncDataFunc, which then reports the entry with the digest of
+// whatever was written so far; the only place that may say "complete" is the
+// DATA arm of the receive loop, for an empty payload (wave 26: a deferred
+// "release the handles" loop over receiver.pipes reported truncated files).
+func r05_13(c *Ctx, rule string) {
+	c.R.Rule(rule, "who may close a pipe: the only Close of a writer taken from receiver.pipes (or of the wrapper asyncDataFunc registers there) is the synchronous call in the receive loop on the empty-payload edge of the DATA arm")
+	loop := recvLoop(c, rule)
+	if loop == nil {
+		return
+	}
+	fromPipes := func(v ssa.Value) bool {
+		switch t := v.(type) {
+		case *ssa.Lookup:
+			return isFieldLoad(t.X, "fsutil.receiver.pipes")
+		case *ssa.Next:
+			if rg, ok := t.Iter.(*ssa.Range); ok {
+				return isFieldLoad(rg.X, "fsutil.receiver.pipes")
+			}
+		}
+		return c.isCallValueTo(v, "fsutil.newWrappedWriteCloser")
+	}
+	n := 0
+	for _, fn := range c.P.AllModFuncs() {
+		if fn.Pkg == nil || fn.Pkg.Pkg.Path() != loop.Pkg.Pkg.Path() {
+			continue
+		}
+		for _, call := range eng.Calls(fn) {
+			name := c.P.CalleeName(call)
+			if name != "(io.Closer).Close" && name != "fsutil.(*wrappedWriteCloser).Close" {
+				continue
+			}
+			recv := call.Common().Value
+			if !call.Common().IsInvoke() && len(call.Common().Args) > 0 {
+				recv = call.Common().Args[0]
+			}
+			if recv == nil || !c.DerivesFrom(recv, fromPipes, 4) {
+				continue
+			}
+			n++
+			con := c.siteName(call) + "/end-of-data-only"
+			_, isCall := call.(*ssa.Call)
+			if fn != loop || !isCall {
+				c.R.Fail(rule, con, c.pos(call), "a pipe writer is closed outside the DATA arm of the receive loop (or by a go/defer statement): the waiting file goroutine sees a clean end of data and the entry is reported with the digest of a truncated file")
+				continue
+			}
+			// dominated by the empty-payload edge of a test on len(p.Data)
+			ok := false
+			for _, b := range loop.Blocks {
+				if len(b.Instrs) == 0 {
+					continue
+				}
+				iff, isIf := b.Instrs[len(b.Instrs)-1].(*ssa.If)
+				if !isIf {
+					continue
+				}
+				bo, isBo := eng.Resolve(iff.Cond).(*ssa.BinOp)
+				if !isBo {
+					continue
+				}
+				lc, isLen := bo.X.(*ssa.Call)
+				k, isK := bo.Y.(*ssa.Const)
+				if !isLen || !isK || !c.isCallValueTo(lc, "builtin:len") || len(lc.Call.Args) != 1 || !isFieldLoad(lc.Call.Args[0], "types.Packet.Data") || k.Value == nil || k.Int64() != 0 {
+					continue
+				}
+				var edge *ssa.BasicBlock
+				switch bo.Op {
+				case token.EQL, token.LEQ:
+					edge = b.Succs[0]
+				case token.NEQ, token.GTR:
+					edge = b.Succs[1]
+				}
+				if edge != nil && len(edge.Preds) == 1 && edge.Dominates(call.Block()) {
+					ok = true
+				}
+			}
+			c.R.Check(ok, rule, con, c.pos(call), "the close is dominated by the len(p.Data) == 0 edge", "the pipe is closed on a path that is not the empty-payload edge of the DATA arm: content still to come is cut off and the entry is reported as complete")
+		}
+	}
+	c.R.Exact(rule, "Close sites of pipe writers", n, 1)
 }
